@@ -312,6 +312,29 @@ def ask(c, q, workdir, counter):
         e = view_entry(c, q["section"], q["key"])
         if e is None:
             return ("err", "ErrEntry")
+        if q.get("mutate"):
+            # the caller changes the list a first look-up returned; a second look-up (by another access path) must still
+            # give the split of the stored text: accessors do not hand out shared mutable state
+            first = e.list
+            if q["mutate"] == "append":
+                first.append("INTRUDER")
+            elif q["mutate"] == "remove":
+                if first:
+                    del first[0]
+            elif q["mutate"] == "sort":
+                first.sort(reverse=True)
+            elif q["mutate"] == "clear":
+                first.clear()
+            first_t = e.dict
+            first_t["INTRUDER"] = "x"
+            via = q.get("via", "attr")
+            if via == "get":
+                e = c.get(q["key"], section=q["section"])
+            elif via == "profiles":
+                c.profiles = list(c.profiles)          # same priorities: the view is rebuilt from the same entries
+                e = view_entry(c, q["section"], q["key"])
+            else:
+                e = getattr(getattr(c, q["section"]), q["key"]) if q["key"].isidentifier() else c[q["section"]][q["key"]]
         return ("ok", dict(str=e.str, list=list(e.list), tuple=list(e.tuple), as_list=list(e.as_list()),
                            dict=list(e.dict.items()), as_dict=guard(lambda: list(e.as_dict().items())),
                            bool=guard(lambda: e.bool), int=guard(lambda: e.int), float=guard(lambda: e.float)))
@@ -396,8 +419,7 @@ def gen_value(rng, simple=False):
 
 
 HYPH_WORDS = ["north-east-by-north", "ny-alesund-07", "2020-01-01", "2018-12-28/2019-01-15", "/data/obs-archive/rinex-v3/site-004.rnx",
-              "a-b", "x-", "-y", "well--known", "e-mail", "1-2-3-4-5-6-7-8-9", "plain", "{station}-{doy}", "gps:L1-C/A",
-              "#tag", ";note"]
+              "a-b", "x-", "-y", "well--known", "e-mail", "1-2-3-4-5-6-7-8-9", "plain", "{station}-{doy}", "gps:L1-C/A"]
 
 
 def gen_long_value(rng, n):
@@ -409,6 +431,8 @@ def gen_long_value(rng, n):
     lead = "x" * rng.randrange(0, 24)     # shifts the wrap position through the words
     sep = rng.choice([" ", " ", ", ", ","]) if r < 0.8 else " "
     words = [rng.choice(HYPH_WORDS) for _ in range(n)] if r < 0.6 else [rng.choice(HYPH_WORDS)] * n
+    if rng.random() < 0.04:        # class of the open finding c19_comment_continuation_lost (the corpus has it on every run)
+        words[rng.randrange(len(words))] = rng.choice(["#tag", ";note"])
     return ((lead + " ") if lead else "") + sep.join(words)
 
 
@@ -591,7 +615,10 @@ def std_queries(rng, rich=True):
         qs.append(dict(q="get", key=rng.choice(KEYS), value="override", section=rng.choice(SECS + [None]), default=rng.choice([None, "d"])))
         qs.append(dict(q="get", key=rng.choice(KEYS + ["zz"]), value=None, section=None, default=rng.choice([None, "d"])))
         for _ in range(3):
-            qs.append(dict(q="typed", section=rng.choice(SECS), key=rng.choice(KEYS)))
+            tq = dict(q="typed", section=rng.choice(SECS), key=rng.choice(KEYS))
+            if rng.random() < 0.4:
+                tq.update(mutate=rng.choice(["append", "remove", "sort", "clear"]), via=rng.choice(["attr", "get", "profiles"]))
+            qs.append(tq)
         for _ in range(2):
             qs.append(dict(q="replaced", section=rng.choice(SECS), key=rng.choice(KEYS), default=rng.choice([None, None, "DEF"]),
                            extra=(rng.sample(VARS_POOL, 1) if rng.random() < 0.3 else [])))
@@ -741,6 +768,43 @@ def comment_cont_case():
     return dict(name="cfg", ops=ops, queries=qs)
 
 
+def alias_case():
+    """look up .list, change the returned list in place, look up .list/.tuple/.dict again by another access path: the second
+    look-up equals the split of the stored text (same model answer as a plain typed query)."""
+    ops = [dict(op="update", section="sa", key="k1", value="gps:G, glonass:R galileo:E", profile=None, source="s", meta=None, allow_new=True),
+           dict(op="update", section="sa", key="k2", value="zimm osls, tro1", profile="p1", source="s", meta=None, allow_new=True),
+           dict(op="profiles", profiles=["p1"])]
+    qs = []
+    for key in ("k1", "k2"):
+        for mutate in ("append", "remove", "sort", "clear"):
+            for via in ("attr", "get", "profiles"):
+                qs.append(dict(q="typed", section="sa", key=key, mutate=mutate, via=via))
+    return dict(name="cfg", ops=ops, queries=qs)
+
+
+def hyphen_case():
+    """long values whose hyphenated words (letters-hyphen-letters) straddle the wrap column at the widths 200, 60 and 45, with
+    the hyphens at different distances from the column; as_str and write -> read at each width (textwrap must not break
+    after a hyphen: break_on_hyphens=False)."""
+    ops = []
+    n = 0
+    for w in (200, 60, 45):
+        for back in (2, 5, 9, 14):
+            n += 1
+            first = "x" * max(1, w - 33 - back)
+            ops.append(dict(op="update", section=("sa" if n % 2 else "sb"), key=f"key_{n:02d}",
+                            value=f"{first} cross-check_{n:02d} north-east-by-north alpha-beta-gamma-delta 2020-01-01/2020-12-31 end",
+                            profile=None, source="s",
+                            meta=({"help": f"{first} well-known e-mail re-read co-operate"} if back == 5 else None), allow_new=True))
+    qs = [dict(q="layout")]
+    for w in (200, 60, 45):
+        qs.append(dict(q="as_str", width=w, metadata=True))
+        qs.append(dict(q="readback", width=w, case_sensitive=True))
+    return dict(name="cfg", ops=ops, queries=qs)
+
+
+CORPUS.insert(0, hyphen_case())
+CORPUS.insert(0, alias_case())
 CORPUS.append(comment_cont_case())
 CORPUS_QUERIES = [
     dict(q="layout"), dict(q="get", key="k1", value=None, section="sa", default=None),
@@ -803,7 +867,7 @@ def run(ctx):
             add(seq_case(seq, rng.randrange(0, 4), rng), f"exhaustive{length}")
             n_exh += 1
     nxt = canon_sequences(full_len + 1) if ctx.quick() else None
-    n_sample = int(scale * (500 if ctx.quick() else 4000))
+    n_sample = int(scale * (200 if ctx.quick() else 4000))
     if nxt is not None:
         for seq in rng.sample(nxt, min(n_sample, len(nxt))):
             add(seq_case(seq, rng.randrange(0, 4), rng), f"sampled{full_len + 1}")
@@ -820,15 +884,15 @@ def run(ctx):
     for length in range(1, var_len + 1):
         for idx in itertools.product(range(len(VAR_ALPHABET)), repeat=length):
             add(var_case(idx), f"vars{length}")
-    for _ in range(int(scale * (250 if ctx.quick() else 0))):
+    for _ in range(int(scale * (120 if ctx.quick() else 0))):
         add(var_case([rng.randrange(len(VAR_ALPHABET)) for _ in range(rng.choice([4, 4, 5, 6]))]), "vars-sampled")
 
     # ---- T. text form: long values with hyphenated words on the wrap limit
-    for i in range(int(scale * (150 if ctx.quick() else 1200))):
+    for i in range(int(scale * (110 if ctx.quick() else 1200))):
         add(textform_case(rng, i), "textform")
 
     # ---- B. random sequences up to length 30 over all operations
-    n_rand = int(scale * (500 if ctx.quick() else 4000))
+    n_rand = int(scale * (300 if ctx.quick() else 4000))
     for i in range(n_rand):
         n = rng.choice([1, 2, 3, 4, 5, 6, 8, 10, 12, 16, 20, 30])
         ops = [gen_op(rng, ctx.work, counter) for _ in range(n)]
@@ -838,15 +902,37 @@ def run(ctx):
     terms = [t_case(c) for c in cases]
     # spread the (heavier) long random cases evenly over the shards
     size = 120 if ctx.quick() else 250
-    nsh = max(1, -(-len(terms) // size))
-    order = sorted(range(len(terms)), key=lambda i: (i % nsh, i))
-    vs = ctx.coq_cases(emit.shard_terms("check_case", [terms[i] for i in order], size), REQ)
-    flat_o = emit.flatten_verdicts(vs, len(cases))
-    flat = None
-    if flat_o is not None:
-        flat = [0] * len(cases)
-        for j, i in enumerate(order):
-            flat[i] = flat_o[j]
+
+    def evaluate(fn, idx, size):
+        """verdicts of check function `fn` for the cases idx (None if a shard failed)"""
+        nsh = max(1, -(-len(idx) // size))
+        order = sorted(range(len(idx)), key=lambda j: (j % nsh, j))
+        vs = ctx.coq_cases(emit.shard_terms(fn, [terms[idx[j]] for j in order], size), REQ)
+        flat_o = emit.flatten_verdicts(vs, len(idx))
+        if flat_o is None:
+            return None
+        out = [0] * len(idx)
+        for pos, j in enumerate(order):
+            out[j] = flat_o[pos]
+        return out
+
+    # pass 1: equal to the specification?  pass 2 (differing cases only): which known deviations explain it?
+    flat = evaluate("check_plain", list(range(len(cases))), size)
+    if flat is not None:
+        differing = [i for i, v in enumerate(flat) if v != 0]
+        ctx.log(f"cases differing from the specification: {len(differing)}")
+        todo, done_unexplained = differing, False
+        while todo and not done_unexplained:
+            batch, todo = todo[:96], todo[96:]
+            vb = evaluate("check_case", batch, 6)
+            if vb is None:
+                flat = None
+                break
+            for i, v in zip(batch, vb):
+                flat[i] = v
+            done_unexplained = any(v == 1 for v in vb)
+        for i in todo:                       # not classified any more: an unexplained case has already been found
+            flat[i] = 1
 
     # ---------------------------------------------------------------- decide
     if flat is None:
@@ -865,7 +951,7 @@ def run(ctx):
                     if mask & bit:
                         ctx.count(f"quirk:{fid}")
                         ctx.finding(fid, what, dict(rep, deviation=fid))
-            else:
+            elif len(ctx.violations) < 12:
                 if reported < 3:
                     rep["first_difference_(op_index,query_index)"] = ctx.coq_eval(REQ, f"first_diff {t_case(case)}")
                     reported += 1
